@@ -8,7 +8,11 @@ from .util import md5hex, safe_call
 
 
 def check_noforce(ctx, rng):
-    sc = Scene(ctx, rng)
+    # one history in five is a *restore* history: a hash-state database is in use, the workspace holds real files, and the
+    # user's edits are mostly other bytes of the same size moved into place with the old timestamps (cp -p / rsync -t / an
+    # archive extractor) - which only the inode tells from the checked-out file - in files the next version changes too
+    restore = rng.random() < 0.2
+    sc = Scene(ctx, rng, with_state=True if restore else None)
     try:
         prior = gen.rand_tree(rng, max_files=5, allow_odd=False)
         t1 = sc.put_tree(prior)
@@ -20,11 +24,13 @@ def check_noforce(ctx, rng):
         directed = rng.random() < 0.15
         if directed:
             existing, link = "copy", "hardlink"
+        if restore and existing == "symlink":
+            existing = rng.choice(["copy", "hardlink"])
         sc.checkout(t1, [existing], force=True)
         target = dict(prior)
         for k in list(prior):
             r = rng.random()
-            if r < 0.3:
+            if r < (0.6 if restore else 0.3):
                 target[k] = prior[k] + b"#v2"
             elif r < 0.45 and len(target) > 1:
                 del target[k]
@@ -33,7 +39,7 @@ def check_noforce(ctx, rng):
         # (a symlink to a missing cache object dangles and the follow-up stat raises: outside this property, see C09's known finding)
         missing = [md5hex(c) for c in target.values() if rng.random() < 0.08 and link != "symlink" and existing != "symlink"]
         t2 = sc.put_tree(target, skip=missing)
-        edits = sc.user_edits(kinds=("replace_uncached", "replace_cached", "add", "delete", "dangling"))
+        edits = sc.user_edits(kinds=("replace_uncached", "replace_cached", "add", "delete", "dangling") + (("restore",) if restore else ()))
         gc_old = rng.random() < 0.25 and link != "symlink" and existing != "symlink"  # a symlinked workspace file *is* the cache object
         if gc_old:
             # the old version leaves the cache while the workspace still holds it (e.g. gc)
